@@ -282,12 +282,15 @@ struct PGMIndex<K, Epsilon, EpsilonRecursive, Floating>::Segment {
      * @return the approximate position of the specified key
      */
     inline size_t operator()(const K &k) const {
-        size_t pos;
+        double pos;
         if constexpr (std::is_same_v<K, int64_t> || std::is_same_v<K, int32_t>)
-            pos = size_t(slope * double(std::make_unsigned_t<K>(k) - key));
+            pos = slope * double(std::make_unsigned_t<K>(k) - key);
         else
-            pos = size_t(slope * double(k - key));
-        return pos + intercept;
+            pos = slope * double(k - key);
+        // For keys far away from the segment the product exceeds the range of size_t (converting it would be undefined
+        // behaviour): saturate, the callers cap the result with the intercept of the next segment.
+        constexpr double limit = double(uint64_t(1) << 62);
+        return (pos < limit ? size_t(pos) : size_t(limit)) + intercept;
     }
 };
 
